@@ -18,8 +18,20 @@ assumption.  Words are little-endian `u32`s read from a `List UInt8`, as `Nat`.
 64-bit `usize` is assumed throughout (`usizeMax = 2^64 - 1`; `8 * len()` cannot
 overflow because `len() < 2^32`).
 
-Core Lean only: this file is linked into the native model driver.
+Sink-call level (`Wrapper.encodePieces`): `MessageWrapper::encode` does not
+produce a byte string, it makes a SEQUENCE OF CALLS on a `ZeroCopySink`
+(`append_copy` for every header word, then whatever each value's `to_rough_tlv`
+does: `append_borrow` for `Cow::Borrowed`, `append_copy` for `Cow::Owned`,
+`&[u8]`, `&str`, and the nested call sequence for a value that is itself a
+message).  A call is a `Piece = Hcobs.Method × bytes` (`.copy` = `append_copy`,
+`.borrow` = `append_borrow`), the vocabulary the HCOBS encoder model
+(`Hcobs.Enc.output`) consumes.
+
+Core Lean only (plus the model of the HCOBS `Method`): this file is linked into
+the native model driver.
 -/
+import Woodpile.Model.Hcobs
+
 namespace Woodpile.RoughTlv
 
 deriving instance DecidableEq for Except
@@ -177,6 +189,149 @@ that anyone gets to see). -/
 def Wrapper.bytes {V : Type} (bytes : V → List UInt8) (len : V → Nat) (w : Wrapper V) :
     List UInt8 :=
   (w.encode bytes len).getD []
+
+/-! ### Encoder at the level of `ZeroCopySink` calls -/
+
+/-- One call on the sink: `(.copy, bs)` = `sink.append_copy(bs)`,
+`(.borrow, bs)` = `sink.append_borrow(bs)` (for an `OwningIovec`: `push_copy` /
+`push`; for an `hcobs::Encoder`: `encode_copy` / `encode`). -/
+abbrev Piece := Woodpile.Hcobs.Method × List UInt8
+
+/-- What reaches the sink, as bytes. -/
+def flat (ps : List Piece) : List UInt8 := (ps.map (·.2)).flatten
+
+/-- The offsets loop of `encode` as sink calls: one `append_copy(&sum.to_le_bytes())`
+per element after the first (same control flow as `encOffsets`). -/
+def encOffsetCalls {V : Type} (len : V → Nat) : List (Pair V) → Option Nat → Option (List Piece)
+  | [], _ => some []
+  | e :: es, acc =>
+    if len e.2 > i32Max then none
+    else match acc with
+      | none => encOffsetCalls len es (some (len e.2))
+      | some sum =>
+        let sum' := satAddU32 sum (len e.2)
+        if sum' > i32Max then none
+        else (encOffsetCalls len es (some sum')).map ((.copy, le32 sum) :: ·)
+
+/-- The last loop of `encode`: `value.to_rough_tlv(sink)` for every pair, in
+order.  `calls v = none` means that `v.to_rough_tlv` panics (so does `encode`). -/
+def valueCalls {V : Type} (calls : V → Option (List Piece)) : List (Pair V) → Option (List Piece)
+  | [] => some []
+  | e :: es =>
+    match calls e.2 with
+    | none => none
+    | some c => (valueCalls calls es).map (c ++ ·)
+
+/-- `MessageWrapper::encode` as the sequence of sink calls it makes:
+`append_copy(count)`; `append_copy(offset)` N-1 times; `append_copy(tag)` N times;
+then every value's own calls.  `none` = an `assert!` fails or a value panics. -/
+def encodeEntriesCalls {V : Type} (calls : V → Option (List Piece)) (len : V → Nat)
+    (es : List (Pair V)) : Option (List Piece) :=
+  if es.length > i32Max then none
+  else match encOffsetCalls len es none with
+    | none => none
+    | some offs =>
+      match valueCalls calls es with
+      | none => none
+      | some vals =>
+        some ((.copy, le32 es.length) :: offs ++ es.map (fun e => (.copy, le32 (key e))) ++ vals)
+
+/-- `MessageWrapper::encode` / `to_rough_tlv`, sink-call level.  A nested message
+is the instance `V := Wrapper V'`, `calls := fun w => w.encodePieces calls' len'`. -/
+def Wrapper.encodePieces {V : Type} (calls : V → Option (List Piece)) (len : V → Nat)
+    (w : Wrapper V) : Option (List Piece) :=
+  encodeEntriesCalls calls len w.entries
+
+/-- The bytes a value writes, from its calls (nothing if it panics). -/
+def bytesOf {V : Type} (calls : V → Option (List Piece)) (v : V) : List UInt8 :=
+  flat ((calls v).getD [])
+
+/-! ### The value type and state machine of the `tlv` correspondence family
+
+Kept in the model (not in the driver) so that the lawfulness of every value the
+driver can ever build is a theorem (`Props/C11.dval_lawful`). -/
+
+/-- A value as the `tlv` family sees it: the sink calls its `to_rough_tlv` makes
+(`none` = it panics: a value that only reports a length and must never be
+encoded, or a message containing one) and what `rough_tlv_len` reports. -/
+structure DVal where
+  calls : Option (List Piece)
+  len : Nat
+  deriving Repr, DecidableEq
+
+def DVal.bytes (v : DVal) : List UInt8 := flat (v.calls.getD [])
+
+/-- Is (or contains) a never-encoded fake. -/
+def DVal.fake (v : DVal) : Bool := v.calls.isNone
+
+/-- An item of an `I msg` line, parsed. -/
+inductive ItemSpec where
+  /-- bytes handed over by `append_borrow` (`Cow::Borrowed`) or `append_copy`
+  (`Cow::Owned`, `&[u8]`, `&str`) -/
+  | bytes (m : Woodpile.Hcobs.Method) (bs : List UInt8)
+  /-- the `MessageWrapper` in an earlier slot, by reference -/
+  | msg (slot : Nat)
+  /-- a `MessageView` over (an owned copy of) that slot's encoding -/
+  | view (slot : Nat)
+  /-- a value whose `rough_tlv_len` reports `n` and whose `to_rough_tlv` panics -/
+  | fake (n : Nat)
+  deriving Repr, DecidableEq
+
+inductive Ctor where
+  | new | sorted | slice
+  deriving Repr, DecidableEq
+
+structure TlvSt where
+  slots : List (Option (Wrapper DVal))
+  deriving Repr, DecidableEq
+
+def TlvSt.init : TlvSt := ⟨[]⟩
+
+/-- The slot's message as a value. -/
+def DVal.ofMsg (w : Wrapper DVal) : DVal := ⟨w.encodePieces DVal.calls DVal.len, w.tlvLen⟩
+
+/-- The value an item denotes in state `s`; `none` = malformed op. -/
+def TlvSt.value (s : TlvSt) : ItemSpec → Option DVal
+  | .bytes m bs => some ⟨some [(m, bs)], bs.length⟩
+  | .msg i =>
+    match s.slots[i]? with
+    | some (some w) => some (DVal.ofMsg w)
+    | _ => none
+  | .view i =>
+    match s.slots[i]? with
+    | some (some w) =>
+      match w.encodePieces DVal.calls DVal.len with
+      -- `impl ToRoughTLV for MessageView`: `self.storage.to_rough_tlv(sink)`, storage = `Cow::Owned`
+      | some ps => some ⟨some [(.copy, flat ps)], (flat ps).length⟩
+      | none => none
+    | _ => none
+  | .fake n => some ⟨none, n⟩
+
+def TlvSt.values (s : TlvSt) : List (UInt32 × ItemSpec) → Option (List (Pair DVal))
+  | [] => some []
+  | (t, it) :: rest =>
+    match s.value it with
+    | none => none
+    | some v => (s.values rest).map ((t, v) :: ·)
+
+def Ctor.apply (c : Ctor) (es : List (Pair DVal)) : Except EncErr (Wrapper DVal) :=
+  match c with
+  | .new => Wrapper.new DVal.len es
+  | .sorted => Wrapper.newFromSorted DVal.len es
+  | .slice => Wrapper.newFromSlice DVal.len es
+
+/-- `I msg <ctor> …`: build the values, run the constructor, store the outcome in
+the next slot.  `none` = malformed op (nothing happens). -/
+def TlvSt.msg (s : TlvSt) (c : Ctor) (items : List (UInt32 × ItemSpec)) :
+    Option (TlvSt × Except EncErr (Wrapper DVal)) :=
+  match s.values items with
+  | none => none
+  | some es =>
+    let r := c.apply es
+    some (⟨s.slots ++ [match r with | .ok w => some w | .error _ => none]⟩, r)
+
+/-- Does the slot's message contain a value that must never be encoded? -/
+def hasFake (w : Wrapper DVal) : Bool := w.entries.any (·.2.fake)
 
 /-! ### Decoder: `MessageView` -/
 
